@@ -103,6 +103,14 @@ func (ex *Exec) intercept(st *State, th *Thread, f *Frame, fn *ssa.Function, arg
 			return ret(BoolC(ok && t.Op != OConst))
 		case "verifNoMerge":
 			return ret(nil)
+		case "verifShared":
+			if p, ok := args[0].(Ptr); ok {
+				st.shared = append(st.shared, p)
+			}
+			return ret(nil)
+		case "verifJoinAll":
+			// scheduling guarantees all other threads are done when this executes
+			return ret(nil)
 		case "verifNative":
 			return ret(FalseT)
 		case "verifQuick":
